@@ -15,6 +15,9 @@ TARGETS = {
     "C06-c": ["C06", "C09", "C01"], "C07-c": ["C07"], "C08-c": ["C08", "C09"], "C09-c": ["C09", "C08"],
     "C12-c": ["C12", "C14", "C15"], "C13-c": ["C13"], "C14-c": ["C14", "C12"], "C15-c": ["C15", "C14"],
     "C16-c": ["C16", "C19"], "C19-c": ["C19"], "C03-c": ["C03", "C04"],
+    "C01-d": ["C01", "C09"], "C02-d": ["C02", "C01", "C03"], "C03-d": ["C03", "C09", "C05"], "C04-d": ["C04"],
+    "C05-d": ["C05", "C09", "C14"], "C06-d": ["C06", "C09"], "C07-d": ["C07"], "C08-d": ["C08"], "C09-d": ["C09"],
+    "C13-d": ["C13", "C14"],
 }
 only = sys.argv[1:]
 for sid in sorted(os.listdir("/verif/seeded")):
